@@ -42,13 +42,13 @@ impl ChannelContext {
 //@extract lightning/src/ln/channel.rs :: impl ChannelContext :: fn validate_commitment_signed
 //@strip msgs
 //@rw R15
-    fn validate_commitment_signed<F: FeeEstimator, L: Logger>($params:any) -> $ret { $p0:any let commitment_txid = { $q0:any if let Err(_) = self.secp_ctx.verify_ecdsa( &sighash, &msg.signature, &funding.counterparty_funding_pubkey(), ) { return Err($e1); } $q1:straight }; $p1:straight if msg.htlc_signatures.len() $op:tt commitment_data.tx.nondust_htlcs().len() { return Err($e2); } $p2:straight for (htlc, counterparty_sig) in commitment_data.tx.nondust_htlcs().iter().zip(msg.htlc_signatures.iter()) { $b:straight if let Err(_) = self.secp_ctx.verify_ecdsa( &htlc_sighash, &counterparty_sig, &holder_keys.countersignatory_htlc_key.to_public_key(), ) { return Err($e3); } } $rest:any }
+    fn validate_commitment_signed<F: FeeEstimator, L: Logger>($params:any) -> $ret { $p0:any let commitment_txid = { $q0:any if let Err(_) = self.secp_ctx.verify_ecdsa( &sighash, &msg.signature, &funding.counterparty_funding_pubkey(), ) { return Err($e1); } $q1:straight }; $p1:straight if $cnt:cond { return Err(ChannelError::close(format!( "Got wrong number of HTLC signatures ({}) from remote. It must be {}", $fa:any ))); } $p2:straight for (htlc, counterparty_sig) in commitment_data.tx.nondust_htlcs().iter().zip(msg.htlc_signatures.iter()) { $b:straight if let Err(_) = self.secp_ctx.verify_ecdsa( &htlc_sighash, &counterparty_sig, &holder_keys.countersignatory_htlc_key.to_public_key(), ) { return Err($e3); } } $rest:any }
 //@with
     fn commitment_signed_signature_checks(&self, sighash: Message, commitment_data: &CommitmentData, msg: &CommitmentSigned,
         counterparty_funding_pubkey: PublicKey, countersignatory_htlc_key: PublicKey) -> Result<(), ChannelError>
     {
         if let Err(_) = self.secp_ctx.verify_ecdsa( &sighash, &msg.signature, &counterparty_funding_pubkey, ) { return Err(ChannelError::close(1)); }
-        if msg.htlc_signatures.len() $op commitment_data.tx.nondust_htlcs().len() { return Err(ChannelError::close(2)); }
+        if $cnt { return Err(ChannelError::close(2)); }
         // R6: for (htlc, counterparty_sig) in A.iter().zip(B.iter())
         let mut __i: usize = 0;
         while __i < commitment_data.tx.nondust_htlcs().len() && __i < msg.htlc_signatures.len()
